@@ -23,10 +23,11 @@ try:
         print("MUTANT DOES NOT COMPILE:", b.stderr[-500:]); sys.exit(4)
     env.update(VERIF_REPO=repo, VERIF_BUILD=build)
     for i in ids.split(","):
-        p = subprocess.run(["/verif/check", i, "--no-evidence", "--tier", tier], capture_output=True, text=True, env=env)
+        extra = ["--fuzz-only"] if "--fuzz" in sys.argv else []
+        p = subprocess.run(["/verif/check", i, "--no-evidence", "--tier", tier] + extra, capture_output=True, text=True, env=env)
         lines = [l for l in p.stdout.splitlines() if l.startswith(("VIOLATION", "check ", "INCONCLUSIVE", "KNOWN", "  signature", "BUILD"))]
         print("[%s] rc=%d %s" % (i, p.returncode, "CAUGHT" if p.returncode == 1 else "MISSED" if p.returncode == 0 else "INCONCLUSIVE"))
-        for l in lines[:8]: print("    " + l[:300])
+        for l in lines[:14]: print("    " + l[:300])
 finally:
     shutil.rmtree(scratch, ignore_errors=True)
     for i in ids.split(","):
